@@ -391,6 +391,29 @@ def check(chk: Check) -> None:
         good = fd.get(nf, ())[:2] == ('tok', '1') and (A.as_symlist(fd.get(af)) or ())[:2] == ('symlist', '3')
         chk.require(good, R6, 'template ' + t.key, '%s:%d' % (g.module.rel, t.prod.line),
                     'call(name = NAME, args = the argument list as written): f(r, a) and r.f(a) coincide' if good else 'plain call builds %s' % t.show())
+    # the receiver keeps its text: no value token (numeral, name, string) may end its match with the `.` / `|` that starts the
+    # method or pipe call when the match without it is a token too - `5.str()` would lex as `5.` `str` and be refused
+    suffix_texts = sorted({next(iter(tx)) for tok, tx in lm.token_texts.items() if tx and len(tx) == 1 and next(iter(tx)) in ('.', '|')})
+    for name in lm.order:
+        rm = lm.rules[name]
+        if rm.texts is not None or rm.returns_token == 'never' or rm.rule.func is None:
+            continue
+        stolen = []
+        for c in suffix_texts:
+            if not LM.last_char_can(rm.parsed, c):
+                continue
+            for w in sorted(LM.samples(rm.parsed, unroll=2, cap=300, alphabet='a5' + c) or (), key=lambda x: (len(x), x)):
+                try:
+                    if w.endswith(c) and len(w) > 1 and LM.match_end(rm.parsed, w, 0) == len(w) and LM.match_end(rm.parsed, w[:-1] + ' ', 0) == len(w) - 1:
+                        stolen.append('%r (and %r alone is a %s too)' % (w, w[:-1], name))
+                        break
+                except LM.RegexNotModelled:
+                    break
+        if any(LM.last_char_can(rm.parsed, c) for c in suffix_texts):
+            chk.require(not stolen, R6, 't_%s leaves the call suffix alone' % name, '%s:%d' % (lexrel, rm.rule.line),
+                        'a match that ends in `.` / `|` is never a shorter match plus that character' if not stolen else
+                        'the rule takes the `%s` of a method / pipe call into the receiver: %s - `x%sf()` is then cut differently from `f(x)`' % (
+                            stolen[0].split("'")[1][-1] if "'" in stolen[0] else '.', stolen[0], '.'))
 
 
 def _r7(chk: Check) -> None:
